@@ -389,6 +389,8 @@ def gen_setattr(w, r, kinds=None, attrs=None):
         v = r.choice(V.SECTION_FLAGS)
     elif attr == "address":
         v = V.addr(r, cfg)
+        if r.random() < cfg.get("p_addr_negative", 0.0):
+            v = -r.randrange(1, 24)  # outside the schema's range; the in-memory API takes any int today
     elif attr == "size" and k == "bi":
         cur = len(m.nodes[l].a["contents"])
         v = V.size(r, cfg)
